@@ -11,6 +11,7 @@ import Cgp.System
 import Cgp.Props.C01
 import Cgp.Props.C02
 import Cgp.Props.C03
+import Cgp.Toy
 namespace Cgp.Props.C04
 open Cgp Cgp.Xdr Cgp.Its
 
@@ -492,5 +493,39 @@ theorem service_keeps_gateway_auth (w : System.World) (op : Its.Op) :
   exact service_keeps_gateway_auth_aux H S k V w op
 
 end SystemLevel
+
+/-! ### non-vacuity (the composite model RUN in the kernel on a concrete history, toy hash) -/
+section NonVacuity
+open Cgp.Toy
+
+def k0 : Consts := ⟨[104], [1], [2], [3], [4]⟩
+def svc : Addr := ⟨true, List.replicate 32 8⟩
+def its0 (gw : Gateway.State) : State :=
+  { self := svc, owner := owner0, gatewayAddr := ⟨true, List.replicate 32 6⟩, gasService := ⟨true, List.replicate 32 5⟩,
+    hubAddress := [120], chainName := [115], trusted := fun c => c == [101], registry := fun _ => none, gw := gw,
+    tokens := fun _ => none, executable := fun _ => false }
+/-- a canonical remote-deployment message from the trusted chain "e" -/
+def payload0 : Bytes :=
+  match Abi.encodeHub (.receiveFromHub [101] (.deploy ⟨List.replicate 32 5, [84], [84], 6, none⟩)) with
+  | .ok b => b
+  | .error _ => []
+def mI : Gateway.Message := ⟨[104], [49], [120], svc, H0 payload0⟩
+def isOk : System.Obs → Bool
+  | .gw (.ok _) => true
+  | .its (.ok _) => true
+  | _ => false
+
+/-- the hypotheses of `delivery_was_signed` are satisfiable: on a freshly constructed gateway, a signed approval followed by
+    the delivery of a remote-deployment message to the service — both succeed in the composite model, and a second
+    delivery of the same message is refused -/
+theorem delivery_was_signed_nonvacuous :
+    ∃ g0, Gateway.constructed H0 owner0 owner0 [1] 0 0 [ws0] 5 = some g0 ∧
+      ((System.trace H0 S0 V0 k0 ⟨its0 g0.st, 5⟩
+          [.gw (.approve [mI] pf0), .its (.execute [104] [49] [120] payload0), .its (.execute [104] [49] [120] payload0)]).map
+            (fun t => isOk t.2.2)) = [true, true, false] := by
+  refine ⟨_, rfl, ?_⟩
+  decide +kernel
+
+end NonVacuity
 
 end Cgp.Props.C04
